@@ -358,7 +358,7 @@ def run_b(item, rec):
                     probs.append(f"T{t} query {qi} ({mode}): {p}")
         sw = [s for i, s in enumerate(schedule) if i == 0 or schedule[i - 1][0] != s[0]]
         rec.refute(ctx, bool(probs), "every thread's answers belong to its own queries",
-                   lambda m: dict(case=dict(case0, plans=plans), problems=probs[:4], switches=[[a, b] for a, b in sw][:12], signature=["C16b", kind, str(sw)[:200]]))
+                   lambda m: dict(case=dict(case0, plans=plans), problems=probs[:4], switches=[[a, b] for a, b in sw][:12], steps=[a for a, _ in schedule], signature=["C16b", kind, str(sw)[:200]]))
         return len(schedule)
 
     out = symx.explore(harness, max_paths=(400 if tier == "quick" else 6000), deadline_s=(60 if tier == "quick" else 900))
@@ -430,22 +430,13 @@ def replay(v):
     try:
         for w in workers:
             w.thread.start()
-        switches = [tuple(s) for s in v["switches"]]
-        si = 0
-        cur = switches[0][0] if switches else 0
+        for tid in v["steps"]:
+            if not workers[tid].done:
+                workers[tid].step()
         while not all(w.done for w in workers):
-            if workers[cur].done:
-                alive = [i for i, w in enumerate(workers) if not w.done]
-                cur = alive[0]
-            if si + 1 < len(switches) and workers[cur].at == switches[si + 1][1] and False:
-                pass
-            # follow the recorded switch list: switch when the NEXT recorded switch names another thread at its current point
-            if si + 1 < len(switches):
-                nt, nat = switches[si + 1]
-                if nt != cur and not workers[nt].done and workers[nt].at == nat:
-                    cur = nt
-                    si += 1
-            workers[cur].step()
+            for w in workers:
+                if not w.done:
+                    w.step()
     finally:
         sched.free_run = True
         for w in workers:
